@@ -15,7 +15,8 @@ LeafPaths == {<<"a">>, <<"b">>, <<"c", "a">>, <<"c", "b">>}
 \* paths that may be queried: leaves, a branch, a missing path
 QueryPaths == {<<"a">>, <<"c">>, <<"c", "b">>, <<"z">>}
 
-Plain == {"Zero", "False", "EmptyStr", "EmptyList", "One"}
+\* (None: a value like any other once it has been emitted)
+Plain == {"Zero", "False", "EmptyStr", "EmptyList", "One", "None"}
 Qty   == {"QZero", "QOne"}
 
 IsPrefixOf(p, q) == Len(p) <= Len(q) /\ SubSeq(q, 1, Len(p)) = p
